@@ -217,7 +217,16 @@ func (l *loaded) newEngine(h *Harness, params []int, model map[string]string) (*
 		sort.Strings(names)
 		for _, n := range names {
 			if g, ok := p.Members[n].(*ssa.Global); ok {
-				e.globals[g] = e.alloc(s0, CellObj{zeroOrNull(g.Type().(*types.Pointer).Elem())})
+				et := g.Type().(*types.Pointer).Elem()
+				if at, ok := et.Underlying().(*types.Array); ok {
+					el := make([]Value, at.Len())
+					for i := range el {
+						el[i] = zeroOf(at.Elem())
+					}
+					e.globals[g] = e.alloc(s0, ArrObj{el})
+				} else {
+					e.globals[g] = e.alloc(s0, CellObj{zeroOrNull(et)})
+				}
 			}
 		}
 	}
